@@ -675,9 +675,13 @@ def _observe_species(ctx, sm, objs, cur, spec, misc_objs=None, relations=True):
                     if not (1e-280 < abs(want) < 1e280):
                         ctx.cls('q:under/overflow')
                         return
-                    ctx.close('R6', got, want, max(tol, 1e-11), dict(m6, part=part), scale=abs(want), T=T, P=P)
+                    ok_ = ctx.close('R6', got, want, max(tol, 1e-11), dict(m6, part=part), scale=abs(want), T=T, P=P)
+                    e_ = ctx.err(got, want, abs(want))
                 else:
-                    ctx.close('R6', got, want, tol, dict(m6, part=part), T=T, P=P)
+                    ok_ = ctx.close('R6', got, want, tol, dict(m6, part=part), T=T, P=P)
+                    e_ = ctx.err(got, want)
+                if ok_ and tol == TOL_ADD:      # audit trail for the exact-additivity comparisons
+                    ctx.max_err['R6.exact'] = max(ctx.max_err.get('R6.exact', 0.0), e_)
             cmp('sum', red, tot)
             for i, slot in enumerate(SLOTS):
                 r = ctx.call('R6', dict(m6, part=slot), mcall, objs[slot], 'get_' + q, T=T, P=P,
@@ -710,9 +714,10 @@ def _observe_species(ctx, sm, objs, cur, spec, misc_objs=None, relations=True):
                         ctx.close('R6', _num(e1), ue + _num(z) / (ref.KB_EV * T), 1e-7, dict(me, include_ZPE=True),
                                   T=T, ZPE=z)
                 elif not o['raise_error']:
-                    e1 = ctx.call('R6', dict(me, include_ZPE=True), sm.get_EoRT, T=T, include_ZPE=True, **ekw)
+                    mz = dict(me, include_ZPE=True, vibslot='empty', raise_warning=o['raise_warning'])
+                    e1 = ctx.call('R6', mz, sm.get_EoRT, T=T, include_ZPE=True, **ekw)
                     if e1 is not core.NOVALUE:
-                        ctx.close('R6', _num(e1), ue, TOL_ADD, dict(me, include_ZPE=True, vibslot='empty'), T=T)
+                        ctx.close('R6', _num(e1), ue, TOL_ADD, mz, T=T)
 
 
 def run_species(spec, ctx):
